@@ -293,16 +293,21 @@ def validate_scalar(value: Any, dtype: DataType) -> Any:
     if dtype.kind is object:
         return value
 
+    # Instances of subclasses (e.g. an IntEnum member) count as their builtin base
+    vkind = infer_kind(value)
+    if vkind is dtype.kind:
+        return value
+
     # Numeric coercions
-    if dtype.kind is float and vtype in (int, bool):
+    if dtype.kind is float and vkind in (int, bool):
         return float(value)
-    if dtype.kind is int and vtype is bool:
+    if dtype.kind is int and vkind is bool:
         return int(value)
-    if dtype.kind is complex and vtype in (int, float, bool):
+    if dtype.kind is complex and vkind in (int, float, bool):
         return complex(value)
 
     # Temporal promotion
-    if dtype.kind is datetime and vtype is date:
+    if dtype.kind is datetime and vkind is date:
         return datetime.combine(value, datetime.min.time())
 
     # Otherwise incompatible
